@@ -73,7 +73,25 @@ def instant(v):
     return REAL(y, m, d, h, mi, s, us, tzinfo=UTC)
 
 
+class _UnitAlg(dawgie.Algorithm):
+    '''the algorithm an event belongs to when _delay is evaluated on its own
+    (dawgie.schedule always gets the factory and an instance of the algorithm)'''
+
+    def __init__(self):
+        dawgie.Algorithm.__init__(self)
+        self._version_ = dawgie.VERSION(1, 0, 0)
+
+    def name(self):
+        return 'unit'
+
+
+def _unit_factory(*_a, **_k):
+    return None
+
+
 def mk_event(spec, factory=None, impl=None):
+    if impl is None:
+        factory, impl = _unit_factory, _UnitAlg()
     kw = {}
     if 'boot' in spec:
         kw['boot'] = spec['boot']
